@@ -10,6 +10,8 @@ values (props/c18_consolidate.py).
 Oracle: a transport adapter mounted on the session is the only way to the server, name resolution disabled (a request
 through any other session fails in milliseconds and the read raises); every proxy carries the dataset's session;
 reads on the cached sessions equal the reads on the plain session; key collisions judged directly."""
+import zlib
+
 import common
 from props import c18_cachehist, c18_cachekey, c18_consolidate
 from props import clientsim as cs
@@ -28,9 +30,15 @@ def explore(ctx, tier, search=False):
         if ops is None:
             ops = cs.gen_history(rng, rng.randint(1, 8))
         reads = {}
+        gz = zlib.crc32(label.encode()) % 2 == 1      # every other history: the server compresses its answers
+        if gz:
+            # (a gzip-enabled handler behind the function middleware answers function calls with 500 — the compressed
+            # response no longer offers the parsed dataset; outside this property and C19's quantifier, noted in
+            # design_notes/C19.md: function calls stay in the uncompressed histories)
+            ops = [op for op in ops if op[0] != "fn"]
         for kind in KINDS:
-            case = {"session": kind, "ops": cs.ops_json(ops), "label": label}
-            sim = cs.Sim(kind)
+            case = {"session": kind, "ops": cs.ops_json(ops), "label": label, "gzip": gz}
+            sim = cs.Sim(kind, gzip=gz)
             hr = cs.HistoryRun(ctx, sim, ops, case).run()
             reads[kind] = hr.reads
             cases.append((sim.model_line(), sim.impl_output(), case))
@@ -88,7 +96,7 @@ def replay(payload):
     ops = cs.ops_unjson(c["ops"])
     reads = {}
     for kind in KINDS:
-        sim = cs.Sim(kind)
+        sim = cs.Sim(kind, gzip=c.get("gzip", False))
         hr = cs.HistoryRun(ctx, sim, ops, c).run()
         reads[kind] = hr.reads
         if hr.reads != reads["plain"]:
